@@ -169,6 +169,29 @@ static void transpose_class_case(int cls, int tier) {
   vh_free_all();
 }
 
+/* addition has width-specialised loops (1..8 words and a general one): every row width x column residue x
+ * aliasing form (C fresh / supplied / C == A / C == B / all the same) */
+static void add_sweep_case(int width, int res, int form) {
+  int n = 64 * (width - 1) + (res == 0 ? 64 : res == 1 ? 1 : 63);
+  int m = vh_randint(1, 4);
+  mzd_t *A = vh_mk_kind(m, n, 0);
+  mzd_t *B = (form == 4) ? A : vh_mk_kind(m, n, 0);
+  mzd_t *C = form == 0 ? NULL : form == 1 ? vh_mk_kind(m, n, 0) : form == 2 ? A : form == 3 ? B : A;
+  vh_ev_t e;
+  mzd_t *R = NULL;
+  vh_begin(&e, "add");
+  vh_pi(&e, "alias", form);
+  vh_opnd(&e, "C", (C == A || C == B) ? 'b' : 'o', C);
+  vh_opnd(&e, "A", C == A ? 'b' : 'i', A);
+  vh_opnd(&e, "B", C == B ? 'b' : 'i', B);
+  vh_pre(&e);
+  if (VH_CALL(&e)) R = mzd_add(C, A, B);
+  VH_END(&e);
+  if (!e.die) vh_result(&e, "R", R);
+  vh_post(&e);
+  vh_free_all();
+}
+
 int fam_move(const vh_args_t *a) {
   int ncases = a->cases ? a->cases : (a->tier ? 8000 : 1600);
   int cap = a->maxdim ? a->maxdim : (a->tier ? 320 : 200);
@@ -180,6 +203,18 @@ int fam_move(const vh_args_t *a) {
     else move_case((int)(idx % M_NOPS), cap);
     VH_CASE_END
   }
+  long sidx = ncases;
+  static const int widths[] = {1, 2, 3, 4, 5, 6, 7, 8, 9, 10, 16, 33};
+  for (int wi = 0; wi < 12; wi++)
+    for (int res = 0; res < 3; res++)
+      for (int form = 0; form < 5; form++, sidx++) {
+        if (!a->tier && (int)((wi + res + form + a->seed) % 2) != 0) continue;
+        if (!VH_SHARD(a, sidx)) continue;
+        vh_case_seed(a, sidx);
+        VH_CASE(sidx)
+        add_sweep_case(widths[wi], res, form);
+        VH_CASE_END
+      }
   return 0;
 }
 
@@ -414,13 +449,37 @@ static void obs_case(int op, int cap) {
     break;
   }
   case 3: case 4: { /* find_pivot */
-    mzd_t *A = vh_mk_kind(m, n, vh_pick((int[]){2, 4, 4, 1, 1, 0, 7}, 7));
+    int structured = vh_randint(0, 2) != 0;
+    if (structured) { m = vh_randint(2, 8); n = vh_pick((int[]){65, 100, 128, 130, 192, 200, 257, 320}, 8); }
+    mzd_t *A = vh_mk_kind(m, n, structured ? 2 : vh_pick((int[]){2, 4, 4, 1, 1, 0, 7}, 7));
     int sr = vh_randint(0, m - 1), sc;
     switch (vh_randint(0, 3)) {
     case 0: sc = n - 1 - vh_randint(0, (n < 64 ? n : 64) - 1); break; /* in the last 64 columns */
     case 1: sc = (n - 1) / 64 * 64; break;                             /* start of the last word */
     case 2: sc = vh_randint(0, (n - 1) / 64) * 64; break;               /* word aligned */
     default: sc = pick_col(n);
+    }
+    if (structured) {
+      /* the searched region is empty up to a target word (first / a middle / the last one); in that word
+         several rows hold ones at different positions, in an order that defeats early exits; rows above
+         the start row and columns left of the start column hold junk */
+      sr = vh_randint(0, m - 2);
+      if (vh_randint(0, 3)) sc = vh_randint(0, n - 1);
+      int w0 = sc / 64, wl = (n - 1) / 64;
+      int tw = vh_randint(w0, wl);
+      int lo = tw * 64, hi = (tw == wl) ? n - 1 : lo + 63;
+      if (tw == w0) lo = sc;
+      for (int i = sr; i < m; i++) {
+        int cnt = vh_randint(0, 2);
+        for (int t = 0; t < cnt; t++) {
+          int c = vh_randint(0, 2) ? vh_randint(lo, hi) : (vh_randint(0, 1) ? lo + (sc % 64 <= hi - lo ? sc % 64 : 0) : vh_randint(lo, hi));
+          if (c >= lo && c <= hi) A->data[(size_t)i * A->rowstride + c / 64] |= (word)1 << (c % 64);
+        }
+        for (int c = hi + 1; c < n; c++) if (vh_randint(0, 3) == 0) A->data[(size_t)i * A->rowstride + c / 64] |= (word)1 << (c % 64);
+      }
+      for (int i = 0; i < m; i++)
+        for (int c = 0; c < n; c++)
+          if ((i < sr || c < sc) && vh_randint(0, 1)) A->data[(size_t)i * A->rowstride + c / 64] |= (word)1 << (c % 64);
     }
     rci_t r = -7, c = -7;
     vh_begin(&e, "find_pivot");
